@@ -39,6 +39,13 @@ func callSSA(i *interpreter, caller *frame, callpos token.Pos, fn *ssa.Function,
 				return i.ffiMethod(fr, fn, no, args[1:])
 			}
 		}
+		if m, ok := ffiModels[name]; ok {
+			// models also serve interpreted standard-library functions
+			// (unicode/utf8 on symbolic strings)
+			if r, handled := m(i, fr, args); handled {
+				return r
+			}
+		}
 		switch i.classify(fn) {
 		case fnZV:
 			return i.zvCall(fr, fn, args)
